@@ -22,9 +22,11 @@
                                               no_outsider_holds_hop_keys (all histories)
     "the hop list names exactly the peers it selected, in order" (as a path) → no_first_hop_retry_after_first_hop,
                                               timeout_after_first_hop_sends_no_create, extend_goes_to_named_key
+    (mechanism) only cells that decrypted under the circuit's keys reach on_extend / on_extended
+                                            → unauthenticated_extend_ignored, delivered_cell_is_step
     "never changes an already established hop" → step_hops_append_only, hops_append_only, answer_touches_one_circuit
-                                              (originator side); joined_ids_disjoint_partial, joined_keys_stable_partial,
-                                              relay_route_stable, joined_state_stable_partial, joined_state_stable_default_policy,
+                                              (originator side); joined_ids_disjoint, joined_keys_stable,
+                                              relay_route_stable, joined_state_stable, resumed_join_on_used_id_refused,
                                               pairing_under_used_id_refused (responder / relay side)
 -/
 import Ipv8.C08.Lemmas
@@ -652,17 +654,12 @@ example :
 
 /-! ## 6. the joined side: keys and routes of established hops never change
 
-FULL statement wanted: for EVERY event, incl. `.join` (a join_circuit that resumes after a suspending, overridden
-should_join_circuit), ids stay disjoint and keys stay put.  That is FALSE for the model and for the code: the guards of
-on_create run before the suspension, join_circuit re-checks only the created cache, so a join can resume on an id
-that was taken meanwhile.  `JoinTimely` excludes exactly that — and it is NOT only operator-controlled: the next hop can
-make it false at will by sending a CREATE under the relay's reserved outgoing id (plaintext) so that the join is
-suspended across the pairing (second review; scenario `id-squat/suspended`).  In that state the id is exit socket AND
-relay route; the theorems named `…_partial` are silent there.  The Python endpoint stays functional because
-`process_cell` serves relay routes before exit sockets (crypto.py, outside this model), so no cell for that id ever
-reaches on_extend / on_create again; that precedence is a trusted fact here, exercised by the harness, not proved.
-Unconditional for the default (non-suspending) policy: `joined_state_stable_default_policy`.  With the default policy
-`.join` never occurs on its own (`on_create_is_guarded_join`). For everything else no side condition is left: since fix 172d874 the relay branch of on_created refuses to pair when the outgoing circuit
+History of this section: the joined-side theorems first carried `FreshTo` (attacker-falsifiable → defect, fix
+172d874), then — for the `.join` event only — `JoinTimely` (again attacker-falsifiable by squatting on the reserved id
+across a suspension; inert on the Python endpoint).  Since /repo fix 82c67e3 (property C05) on_create repeats its
+in-use guards after awaiting should_join_circuit, `joinCircuit` mirrors that, and the theorems hold for every event
+with no side condition (`resumed_join_on_used_id_refused`).
+For everything else no side condition is left: since fix 172d874 the relay branch of on_created refuses to pair when the outgoing circuit
 id it reserved is meanwhile in use at the node (that id travels in a plaintext CREATE, so the next hop or the network
 could — and on the unrepaired tree did — make it collide on purpose; see `pairing_under_used_id_refused`).
 The events are the twelve of `Ev`; explicit removals (destroy from the neighbour, inactivity sweep, unload) are not
@@ -670,17 +667,11 @@ events of this model (properties C05/C09/C11): after such a removal the id is fr
 
 /-- a circuit id is never an exit socket and a relay route at the same time (on_create refuses ids in use; the relay
     branch of on_created removes the exit socket it converts and refuses outgoing ids in use) -/
-theorem joined_ids_disjoint_partial (C : Crypto Tag Sess Blob) (n : Node Sess) (e : Ev Tag Blob)
-    (hd : Disjoint n) (hj : JoinTimely n e) : Disjoint (step C n e).1 := by
+theorem joined_ids_disjoint (C : Crypto Tag Sess Blob) (n : Node Sess) (e : Ev Tag Blob)
+    (hd : Disjoint n) : Disjoint (step C n e).1 := by
   intro cid
   rcases step_joined C n e with ⟨h1, h2⟩ | ⟨c1, h, he, hr, _, h1, h2⟩ |
-    ⟨cid', ident, key, auth, cands, env, req, ex, rfl, hcr, hex, _, hfr, hfe, h1, h2⟩ |
-    ⟨jc, ji, jn, jk, jy, jo, jh, rfl, hcn, h1, h2⟩
-  rotate_left 3
-  · rw [h1, h2]
-    by_cases hc : cid = jc
-    · subst hc; exact Or.inr (hj hcn).2.1
-    · rw [upd_other _ _ hc]; exact hd cid
+    ⟨cid', ident, key, auth, cands, env, req, ex, rfl, hcr, hex, _, hfr, hfe, h1, h2⟩
   · rw [h1, h2]; exact hd cid
   · rw [h1, h2]
     by_cases hc : cid = c1
@@ -700,19 +691,11 @@ example : Disjoint (Node.init 2 true true : Node Secret) := fun _ => Or.inl rfl
 /-- responder / relay side of an established hop: whatever event follows (replayed CREATE after the created-cache
     expired, replayed EXTEND, late or forged CREATED, a CREATE squatting on a reserved outgoing id, timeouts …) the
     session keys held for circuit id `cid` stay the same -/
-theorem joined_keys_stable_partial (C : Crypto Tag Sess Blob) (n : Node Sess) (e : Ev Tag Blob) (cid : Nat) (k : Sess)
-    (hj : JoinTimely n e) (hk : entryKeys n cid = some k) : entryKeys (step C n e).1 cid = some k := by
+theorem joined_keys_stable (C : Crypto Tag Sess Blob) (n : Node Sess) (e : Ev Tag Blob) (cid : Nat) (k : Sess)
+    (hk : entryKeys n cid = some k) : entryKeys (step C n e).1 cid = some k := by
   unfold entryKeys at hk ⊢
   rcases step_joined C n e with ⟨h1, h2⟩ | ⟨c1, h, he, hr, _, h1, h2⟩ |
-    ⟨cid', ident, key, auth, cands, env, req, ex, rfl, hcr, hex, _, hfr, hfe, h1, h2⟩ |
-    ⟨jc, ji, jn, jk, jy, jo, jh, rfl, hcn, h1, h2⟩
-  rotate_left 3
-  · rw [h1, h2]
-    by_cases hc : cid = jc
-    · subst hc
-      obtain ⟨je, jr, _⟩ := hj hcn
-      rw [je, jr] at hk; cases hk
-    · rw [upd_other _ _ hc]; exact hk
+    ⟨cid', ident, key, auth, cands, env, req, ex, rfl, hcr, hex, _, hfr, hfe, h1, h2⟩
   · rw [h1, h2]; exact hk
   · rw [h1, h2]
     by_cases hc : cid = c1
@@ -735,10 +718,7 @@ theorem relay_route_stable (C : Crypto Tag Sess Blob) (n : Node Sess) (e : Ev Ta
     (rl : Relay Sess) (hd : Disjoint n) (hr : n.relays cid = some rl) :
     (step C n e).1.relays cid = some rl := by
   rcases step_joined C n e with ⟨_, h2⟩ | ⟨c1, h, _, _, _, _, h2⟩ |
-    ⟨cid', ident, key, auth, cands, env, req, ex, rfl, hcr, hex, _, hfr, _, _, h2⟩ |
-    ⟨jc, ji, jn, jk, jy, jo, jh, rfl, _, _, h2⟩
-  rotate_left 3
-  · rw [h2]; exact hr
+    ⟨cid', ident, key, auth, cands, env, req, ex, rfl, hcr, hex, _, hfr, _, _, h2⟩
   · rw [h2]; exact hr
   · rw [h2]; exact hr
   · rw [h2]
@@ -754,39 +734,28 @@ theorem relay_route_stable (C : Crypto Tag Sess Blob) (n : Node Sess) (e : Ev Ta
     rw [upd_other _ _ ht]; exact hr
 
 /-- all histories, from any state in which no id is exit socket and relay route at once (in particular `Node.init`) -/
-theorem joined_state_stable_partial (C : Crypto Tag Sess Blob) (evs : List (Ev Tag Blob)) (n : Node Sess)
-    (hd : Disjoint n) (hj : RunTimely C n evs) :
+theorem joined_state_stable (C : Crypto Tag Sess Blob) (evs : List (Ev Tag Blob)) (n : Node Sess)
+    (hd : Disjoint n) :
     Disjoint (run C n evs) ∧
     (∀ cid k, entryKeys n cid = some k → entryKeys (run C n evs) cid = some k) ∧
     (∀ cid rl, n.relays cid = some rl → (run C n evs).relays cid = some rl) := by
   induction evs generalizing n with
   | nil => exact ⟨hd, fun _ _ h => h, fun _ _ h => h⟩
   | cons e es ih =>
-    obtain ⟨hj1, hj2⟩ := hj
-    obtain ⟨i1, i2, i3⟩ := ih (step C n e).1 (joined_ids_disjoint_partial C n e hd hj1) hj2
-    exact ⟨i1, fun cid k h => i2 cid k (joined_keys_stable_partial C n e cid k hj1 h),
+    obtain ⟨i1, i2, i3⟩ := ih (step C n e).1 (joined_ids_disjoint C n e hd)
+    exact ⟨i1, fun cid k h => i2 cid k (joined_keys_stable C n e cid k h),
       fun cid rl h => i3 cid rl (relay_route_stable C n e cid rl hd h)⟩
 
-/-- the shipped, non-suspending policy (no resumed joins in the trace): no side condition at all -/
-theorem joined_state_stable_default_policy (C : Crypto Tag Sess Blob) (evs : List (Ev Tag Blob)) (n : Node Sess)
-    (hd : Disjoint n) (hnj : ∀ e ∈ evs, NoResumedJoin e) :
-    Disjoint (run C n evs) ∧
-    (∀ cid k, entryKeys n cid = some k → entryKeys (run C n evs) cid = some k) ∧
-    (∀ cid rl, n.relays cid = some rl → (run C n evs).relays cid = some rl) := by
-  apply joined_state_stable_partial C evs n hd
-  induction evs generalizing n with
-  | nil => trivial
-  | cons e es ih =>
-    refine ⟨?_, ih _ (joined_ids_disjoint_partial C n e hd ?_) (fun e' he' => hnj e' (by simp [he']))⟩ <;>
-    · have := hnj e (by simp)
-      cases e <;> first | trivial | exact absurd this (by simp [NoResumedJoin])
-
-/-- non-vacuity: a trace of the default policy with replays and a squatting CREATE -/
-example : ∀ e ∈ ([.create 77 555 1 (some ⟨10, 0⟩) 20 [3, 4, 4], .createdExpire 77,
-    .create 77 556 1 (some ⟨40, 0⟩) 21 []] : List (Ev FTag FBlob)), NoResumedJoin e := by
-  intro e he
-  simp at he
-  rcases he with rfl | rfl | rfl <;> trivial
+/-- a join that resumes (after a suspending should_join_circuit) on an id that was taken in the meantime — by a
+    competing join, or by the pairing of a CREATED under an id the next hop squatted on — writes nothing (fix 82c67e3) -/
+theorem resumed_join_on_used_id_refused (C : Crypto Tag Sess Blob) (n : Node Sess) (cid ident nodePk : Nat)
+    (key : Option Wire) (y : Key) (offered : List Key)
+    (hused : (n.created cid).isSome ∨ (n.circuits cid).isSome ∨ (n.relays cid).isSome ∨ (n.exits cid).isSome) :
+    step C n (.join cid ident nodePk key y offered) = (n, []) := by
+  cases key with
+  | none => simp [step, joinCircuit]
+  | some w =>
+    rcases hused with h | h | h | h <;> simp [step, joinCircuit, h]
 
 /-- a second join of an id that is being joined already (a duplicated CREATE that passed the guards of on_create
     while the first one was still suspended in should_join_circuit) writes nothing and answers nothing: the
@@ -934,5 +903,37 @@ theorem extend_goes_to_named_key (n : Node Sess) (cid ident : Nat) (nodePk : Key
       · split
         · intro o ho; simp at ho
         · intro o ho; simp at ho; subst ho; exact ⟨rfl, rfl⟩
+
+/-! ## 8. only authentic cells extend a circuit
+
+(added after seeded change m13: with a multi-interface endpoint the crypto layer was attached to one interface only, so
+an unencrypted EXTEND sent to the other interface was executed).  `genNoCryptoPackets` and the message ids are GENERATED
+from payload.py: if EXTEND or EXTENDED were ever allowed as plaintext these theorems stop compiling. -/
+
+/-- an EXTEND or EXTENDED that did not decrypt under the keys of the circuit it names — whatever interface it arrived
+    on, whatever it contains — changes nothing and is answered by nothing -/
+theorem unauthenticated_extend_ignored (C : Crypto Tag Sess Blob) (n : Node Sess) (cid ident : Nat) (nodePk : Key)
+    (key : Option Wire) (ag : Bool) (toCid number : Nat) (auth : Tag) (cands : Blob) (env : Env) :
+    deliverCell C n false (.extend cid ident nodePk key ag toCid number) = (n, []) ∧
+    deliverCell C n false (.extended cid ident key auth cands env) = (n, []) := by
+  constructor <;> simp [deliverCell, Ev.isCell, Ev.msgId, genNoCryptoPackets, genMsgIdExtend, genMsgIdExtended]
+
+/-- authentic cells, and CREATE / CREATED (plaintext by design, protected by the handshake itself), reach the handlers:
+    everything proved about `step` applies to them -/
+theorem delivered_cell_is_step (C : Crypto Tag Sess Blob) (n : Node Sess) (e : Ev Tag Blob) (authentic : Bool)
+    (h : authentic = true ∨ genNoCryptoPackets.contains e.msgId = true ∨ e.isCell = false) :
+    deliverCell C n authentic e = step C n e := by
+  unfold deliverCell
+  rcases h with h | h | h
+  · simp [h]
+  · rw [h]; simp
+  · simp [h]
+
+/-- non-vacuity: relay 2 joined circuit 77; a raw EXTEND naming peer 6 (address given) would be executed by `step`
+    (a CREATE goes out) but is dropped by the cell layer -/
+example :
+    let r := (step Free (Node.init 2 true true) (.create 77 555 1 (some ⟨10, 0⟩) 20 [3, 4, 4])).1
+    (step Free r (.extend 77 9 6 (some ⟨30, 0⟩) true 88 999)).2.length = 1 ∧
+      (deliverCell Free r false (.extend 77 9 6 (some ⟨30, 0⟩) true 88 999)).2.length = 0 := by decide
 
 end Ipv8.C08
